@@ -129,7 +129,8 @@ def run_seq(sh, s, d, case):
             base_present.add(o)
     nops = rnd.choice([6, 12, 20, 30])
     for i in range(nops):
-        k = rnd.choice(['alloc'] * 5 + ['alloc-store'] * 3 + ['foreign'] * 3 + ['abort', 'reopen', 'undo-create', 'pack', 'hostile', 'hostile'])
+        k = rnd.choice(['alloc'] * 5 + ['alloc-store'] * 3 + ['foreign'] * 3 + ['abort', 'reopen', 'undo-create', 'pack', 'hostile', 'hostile',
+                        'foreign-inflight', 'foreign-inflight'])
         if k in ('alloc', 'alloc-store', 'abort'):
             n = rnd.choice([1, 1, 2, 5])
             got = []
@@ -175,6 +176,56 @@ def run_seq(sh, s, d, case):
             sh.count('explicit_foreign_ids_stored')
             foreign_pending = True
             trace.append('foreign(%d%s)' % (cand, ',restore' if restore else ''))
+        elif k == 'foreign-inflight':
+            # a record under an explicit id just above the allocator is stored inside a transaction, ids are allocated
+            # while that transaction is in flight, then it is aborted (or committed)
+            top = max([u(o) for o in issued | set(present)] or [0])
+            cand = rnd.choice([top + 1, top + 2, top + 8, (top | 0xff) + 1])
+            fo = p(cand)
+            if fo in issued or fo in present:
+                continue
+            t = TransactionMetaData(b'', b'inflight')
+            st.tpc_begin(t)
+            restore = kind == 'file' and rnd.random() < 0.5
+            if restore:
+                st.restore(fo, st._tid, objs.cell_record('fi'), '', None, t)
+            else:
+                st.store(fo, z64, objs.cell_record('fi'), '', t)
+            mid = []
+            bad = None
+            for _ in range(rnd.choice([1, 2, 4])):
+                o = st.new_oid()
+                sh.count('new_oid_calls_checked')
+                if o == fo:
+                    # the id of a record that is only stored in the still uncommitted transaction: it identifies nothing
+                    # yet, the statement gives no verdict (FileStorage never does this, DemoStorage can)
+                    sh.count('allocation_equal_to_inflight_foreign_id_no_verdict')
+                    continue
+                if o in issued or o in present:
+                    bad = o
+                    break
+                issued.add(o)
+                mid.append(o)
+            commit_it = rnd.random() < 0.4
+            if commit_it:
+                st.tpc_vote(t)
+                tidf = st.tpc_finish(t)
+                present[fo] = tidf
+            else:
+                if rnd.random() < 0.5:
+                    st.tpc_vote(t)
+                st.tpc_abort(t)
+            sh.count('explicit_foreign_ids_stored')
+            sh.count('allocations_during_inflight_foreign_store', len(mid))
+            foreign_pending = True
+            trace.append('foreign-inflight(%d,%s,mid=%s)' % (cand, 'commit' if commit_it else 'abort', ','.join(str(u(o)) for o in mid)))
+            if bad is not None:
+                if bad in issued and bad in present and present[bad] is None:
+                    m = 'c20:%s:id-of-uncreated-object-reissued' % kind
+                else:
+                    m = 'c20:%s:id-issued-twice-in-one-session' % kind if bad in issued else 'c20:%s:issued-id-identifies-a-stored-object' % kind
+                sh.violation(m, {'oid': bad, 'trace': trace}, case)
+                return None
         elif k == 'undo-create' and kind in ('file', 'demo-file'):
             tgt = st if kind == 'file' else st.changes
             o = st.new_oid()
